@@ -195,8 +195,9 @@ def o4(tier):
         u = lambda v: uid_of(ob.eng, p.st, v)
         produced = {u(e.ret): e for e in p.trace if e.ret is not None}
         for e in p.trace:
-            if not ev_is(e, 'splitn'):
+            if not (ev_is(e, 'splitn') or e.short.split('::')[-1] == 'split_once'):
                 continue
+            is_once = not ev_is(e, 'splitn')
             n_split += 1
             src = u(e.args[0])
             chain = []
@@ -208,7 +209,10 @@ def o4(tier):
             ob.require(not bad and cur.startswith('iter['), 'O4/imeta-element-altered-before-split',
                        f'parse_imeta_tag splits {" <- ".join(chain) or src} (<- {cur}) instead of the tag element itself: the element is transformed ({bad}) before key and value are separated, '
                        'so a file name / MIME type with e.g. trailing whitespace is not what the sender authenticated', p)
-            ob.require(str(u(e.args[1])) == '2' and str(u(e.args[2])) == '32', 'O4/imeta-split-shape', f'splitn({u(e.args[1])}, {u(e.args[2])}) is not splitn(2, \' \')', p)
+            if is_once:
+                ob.require(str(u(e.args[1])) in ('32', "' '"), 'O4/imeta-split-shape', f'split_once({u(e.args[1])}) does not split at the first space', p)
+            else:
+                ob.require(str(u(e.args[1])) == '2' and str(u(e.args[2])) == '32', 'O4/imeta-split-shape', f'splitn({u(e.args[1])}, {u(e.args[2])}) is not splitn(2, \' \')', p)
         # the sender accepts exactly what validate_mime_type / validate_filename accept; the receiver must not apply a second, narrower gate to the validated value
         for i, e in enumerate(p.trace):
             if ev_is(e, 'validate_mime_type', 'validate_filename') and e.ret is not None:
@@ -220,8 +224,8 @@ def o4(tier):
             if ev_is(e, 'validate_filename', 'validate_mime_type', 'hex::decode', 'decode') and e.args:
                 a = u(e.args[-1] if ev_is(e, 'validate_filename', 'validate_mime_type') else e.args[0])
                 if ev_is(e, 'validate_filename', 'validate_mime_type'):
-                    ob.require(a.startswith('splitn['), f'O4/imeta-value-altered/{e.short.split("::")[-1]}', f'{e.short} is given {a}, not the value part of the split element', p)
-    ob.require(n_split >= 2, 'O4/vacuity', f'splitn events seen: {n_split}')
+                    ob.require(a.startswith('splitn[') or re.match(r'split_once(#\d+)?\.Some\.0\.1$', a) is not None, f'O4/imeta-value-altered/{e.short.split("::")[-1]}', f'{e.short} is given {a}, not the value part of the split element', p)
+    ob.require(n_split >= 2, 'O4/vacuity', f'split events (splitn / split_once) seen: {n_split}')
     ob.r.bounds = {'tag elements inspected': '<= 2 per path (the loop body is the same for every element)', 'paths': 'all'}
     return ob.done(cases=len(paths))
 
